@@ -79,7 +79,7 @@ def main():
                 evdir = os.path.join(tmp, "verif")
                 os.makedirs(evdir, exist_ok=True)
                 shutil.copy(os.path.join(VERIF, "known_findings.json"), evdir)
-                rc, out = run([os.path.join(VERIF, "bin", "fitcheck"), "-prop", pid, "-tier", m.get("tier", "quick"), "-repo", dst, "-verif", evdir], env=env)
+                rc, out = run([os.environ.get("FITCHECK_BIN", os.path.join(VERIF, "bin", "fitcheck")), "-prop", pid, "-tier", m.get("tier", "quick"), "-repo", dst, "-verif", evdir], env=env)
                 body = "\n".join(l for l in out.splitlines() if " tier=" not in l)
                 hit = rc == 1 and "VIOLATION property=%s" % pid in out and (m["expect"] in body)
                 res.append((pid, hit, out))
